@@ -39,23 +39,28 @@ type Frame struct {
 	SrcMAC tcpip.LinkAddress
 	DstMAC tcpip.LinkAddress
 	Dup    bool
+	Eth    bool // written by a real fd-based endpoint as an Ethernet frame (MACs are those on the wire)
 }
 
 // Link is the in-memory NIC of one stack.
 type Link struct {
-	w     *World
-	Idx   int
-	Name  string
-	mtu   uint32
-	caps  stack.LinkEndpointCapabilities
-	addr  tcpip.LinkAddress
-	disp  stack.NetworkDispatcher
-	id    tcpip.LinkEndpointID
-	Queue []*Frame // emitted, not yet delivered or dropped
-	Peer  int      // link index frames are delivered to (-1: scripted peer reads the queue)
-	Sent  int
-	rx    chan func() // receive goroutine's inbox (created on first no-wait injection)
-	NoLog bool        // frames of this link are left out of the event-log hash (their bytes depend on map iteration order)
+	w      *World
+	Idx    int
+	Name   string
+	mtu    uint32
+	caps   stack.LinkEndpointCapabilities
+	addr   tcpip.LinkAddress
+	disp   stack.NetworkDispatcher
+	id     tcpip.LinkEndpointID
+	Queue  []*Frame // emitted, not yet delivered or dropped
+	Peer   int      // link index frames are delivered to (-1: scripted peer reads the queue)
+	Sent   int
+	rx     chan func() // receive goroutine's inbox (created on first no-wait injection)
+	fd     int         // fd link: the simulated descriptor
+	fdrx   chan []byte // fd link: frames waiting to be read by the endpoint's dispatch loop
+	lastRx int         // fd link: length of the last frame queued for the dispatch loop
+	fdDead bool        // fd link: the dispatch loop has returned
+	NoLog  bool        // frames of this link are left out of the event-log hash (their bytes depend on map iteration order)
 }
 
 func (l *Link) MTU() uint32                                  { return l.mtu }
@@ -166,6 +171,8 @@ func (w *World) Close() {
 			l.rx = nil
 		}
 	}
+	w.closeFdLinks()
+	synctest.Wait()
 	for _, l := range w.Links {
 		stack.VerifUnregisterLinkEndpoint(l.id)
 	}
@@ -277,6 +284,14 @@ func views(data []byte, mode int) buffer.VectorisedView {
 
 // Inject hands a network-layer packet to link l's stack.
 func (w *World) Inject(l *Link, proto tcpip.NetworkProtocolNumber, data []byte, src, dst tcpip.LinkAddress, mode int) {
+	if l.fdrx != nil {
+		if !l.NoLog {
+			w.Log.Byte(0x80 | byte(l.Idx))
+			w.Log.Bytes(data)
+		}
+		w.fdInject(l, ethWrap(l, proto, data, src, dst), true)
+		return
+	}
 	if l.disp == nil {
 		return
 	}
@@ -488,6 +503,14 @@ func (w *World) SimNanos() int64 { return int64(time.Since(w.T0)) }
 // pending at once, and their processing interleaves - at the seeded yield
 // points - with application goroutines and the stack's own goroutines.
 func (w *World) InjectNoWait(l *Link, proto tcpip.NetworkProtocolNumber, data []byte, mode int) {
+	if l.fdrx != nil {
+		if !l.NoLog {
+			w.Log.Byte(0x80 | byte(l.Idx))
+			w.Log.Bytes(data)
+		}
+		w.fdInject(l, ethWrap(l, proto, data, "", ""), false)
+		return
+	}
 	if l.disp == nil {
 		return
 	}
